@@ -51,7 +51,7 @@ def _valid_sources(rng):
 
 
 def _damage(rng, text, k):
-    kinds = ['efunlocal', 'efunlocal', 'redeclare', 'redeclare', 'del', 'ins', 'dup', 'trunc', 'unstr', 'uncomment', 'untext', 'unlit', 'if', 'endif', 'else', 'defself', 'defmutual', 'macroargs', 'incself', 'incmissing',
+    kinds = ['intmin', 'efunlocal', 'efunlocal', 'redeclare', 'redeclare', 'del', 'ins', 'dup', 'trunc', 'unstr', 'uncomment', 'untext', 'unlit', 'if', 'endif', 'else', 'defself', 'defmutual', 'macroargs', 'incself', 'incmissing',
              'incdeep', 'litdeep', 'locals', 'args', 'strings', 'funcs', 'longline', 'longident', 'longstr', 'dupfun', 'conflict', 'random', 'nul', 'high', 'inhmissing', 'inhlate', 'superunknown', 'defprobe', 'pragma', 'unlit3', 'unlit3', 'iffatal']
     kind = rng.choice(kinds)
     n = len(text)
@@ -110,6 +110,10 @@ def _damage(rng, text, k):
     elif kind == 'iffatal':
         # an open #if followed by an error that stops the lexer before the end of the file
         t = text[:nl] + '#if 1\n#ifdef NOPE\n#else\nint zq = ' + '1 + ' * 800 + '1;\n' + text[nl:]      # "Line too long" is fatal for the lexer
+    elif kind == 'intmin':
+        # constant expressions the compiler and the preprocessor fold themselves
+        t = rng.choice(('int zim = (-9223372036854775807 - 1) %% -1;\n', 'int zim = (-9223372036854775807 - 1) / -1;\n', '#if (-2147483647 - 1) / -1\nint zim;\n#endif\n',
+                        '#if (-2147483647 - 1) %% -1 == 0\nint zim;\n#endif\n', 'int zim = 1 / 0;\n', 'int zim = 1 %% 0;\n', '#if 1 / 0\n#endif\n', 'int zim = 1 << 64;\nint zin = 1 << -1;\n')).replace('%%', '%') + text
     elif kind == 'efunlocal':
         # locals and parameters named like efuns the probe uses, hidden by an anonymous function that the parser leaves early
         names = rng.sample(EFUN_NAMES, 3)
